@@ -46,9 +46,17 @@ Definition arity_can_accept (a : arity) (n : nat) : bool :=
   | ABetween lo hi => Nat.leb lo n && Nat.leb n hi
   | AAtLeast lo => Nat.leb lo n
   end.
+(* one past the position of the last Required parameter (repo fix: get_arity used to count the
+   required parameters, which let `(a?, b) => ..` be called with one argument and index past
+   the argument vector) *)
+Fixpoint min_args (args : list lamarg) (i acc : nat) : nat :=
+  match args with
+  | [] => acc
+  | a :: r => min_args r (S i) (if arg_is_req a then S i else acc)
+  end.
 Definition lambda_arity (args : list lamarg) : arity :=
   let has_rest := existsb arg_is_rest args in
-  let mn := length (filter arg_is_req args) in
+  let mn := min_args args 0 0 in
   let mx := length args in
   if has_rest then AAtLeast mn else if Nat.eqb mn mx then AExact mn else ABetween mn mx.
 (* get_function_def(v).arity().can_accept(2); false for non-functions (never asked there) *)
